@@ -78,6 +78,13 @@ def schema_files(s) -> dict:
         body += '<xs:element name="own" type="t:Base"/>'
     if s["ext"] != "none":
         body += '<xs:element name="e" type="l:Base"/>'
+    if s.get("twins"):
+        body += ('<xs:element name="buyer"><xs:complexType><xs:sequence><xs:element name="info"><xs:complexType><xs:sequence>'
+                 '<xs:element name="name" type="xs:string"/><xs:element name="email" type="xs:string" minOccurs="0"/></xs:sequence></xs:complexType>'
+                 '</xs:element></xs:sequence></xs:complexType></xs:element>'
+                 '<xs:element name="seller"><xs:complexType><xs:sequence><xs:element name="info"><xs:complexType><xs:sequence>'
+                 '<xs:element name="code" type="xs:int"/></xs:sequence><xs:attribute name="rating" type="xs:decimal" use="required"/></xs:complexType>'
+                 '</xs:element></xs:sequence></xs:complexType></xs:element>')
     if s["grp"] != "none":
         body += '<xs:group ref="t:G"' + {"one": "", "opt": ' minOccurs="0"', "many": ' maxOccurs="unbounded"'}[s["grp"]] + "/>"
     if s["rec"]:
